@@ -27,6 +27,8 @@ CONSTANTS GuardTypedNil,      \* TRUE: typed-nil pointer payloads/destinations y
                               \* FALSE: as-built, the nil check returns before the closer is installed
           PooledBuffer,       \* FALSE: every Consume reads into its own fresh bytes.Buffer (the code)
                               \* TRUE: mutated model, the intermediate buffer is shared between calls (sync.Pool)
+          ZeroCopyBuffer,     \* FALSE: a bytes.Buffer reader is read like any other reader, into a fresh buffer (the code)
+                              \* TRUE: mutated model, its unread bytes are taken without copying (reader.Next(reader.Len()))
           UEOFIsEnd           \* FALSE: only io.EOF itself ends a stream (bytes.Buffer.ReadFrom: e == io.EOF) (the code)
                               \* TRUE: mutated model, io.ErrUnexpectedEOF from the reader is taken for the end of the stream
 
@@ -274,61 +276,89 @@ ProduceWhy(p, o) ==
 (* the buffered path (state machine).  What one call stored must not be    *)
 (* touched by later calls, nor by the caller changing another stored       *)
 (* value: "never alias".                                                   *)
-(*   history  h = sequence of steps                                        *)
-(*     [op |-> "consume", dst, content, target |-> 0]                      *)
-(*     [op |-> "mutate", dst |-> "", content |-> <<>>, target |-> j]       *)
-(*        the caller overwrites byte 1 of the value stored by the j-th     *)
-(*        step (a []byte-kind destination) with MutByte                    *)
-(*   state    q = [held, alias, pool]                                      *)
+(*   history  h = sequence of steps  [op, dst, content, target, rkind]     *)
+(*     op "consume": Consume(reader over content, destination of kind dst) *)
+(*        rkind = the concrete reader: "script" (scripted stream),         *)
+(*        "bytesbuffer" - a bytes.Buffer over a caller-owned slice -,         *)
+(*        "bytesreader" - bytes.Reader -, "stringsreader" - strings.Reader - *)
+(*     op "mutate", target j: the caller overwrites byte 1 of the value    *)
+(*        stored by the j-th step (a []byte-kind destination) with MutByte *)
+(*     op "srcmutate", target j: the caller re-uses the SOURCE of the j-th *)
+(*        step: every byte of the slice it gave is overwritten with        *)
+(*        SrcByte and the buffer is Reset() and rewritten                  *)
+(*   state    q = [held, alias, salias, pool]                              *)
 (*     held[j]  bytes the destination of step j holds now (<<>> for a      *)
-(*              mutate step), alias[j]: it shares the pooled buffer        *)
+(*              non-consume step), alias[j]: it shares the pooled buffer,  *)
+(*              salias[j]: it shares the array of its own source           *)
 (* Faithful: v.SetBytes(buf.Bytes()) / *dst = b keep the buffer's array,   *)
 (* string destinations and BinaryUnmarshaler copy.  With a fresh buffer    *)
-(* per call nobody else ever sees that array.                              *)
+(* per call, filled by buf.ReadFrom(reader) whatever the reader is, nobody *)
+(* else ever sees that array.                                              *)
 (***************************************************************************)
 SeqDst == {"pbytes", "pnbytes", "anybytes", "pstring", "anystring", "binunm"}
 ByteKindDst == {"pbytes", "pnbytes", "anybytes"}
+SeqReaderKinds == {"script", "bytesbuffer", "bytesreader", "stringsreader"}
 MutByte == 238
+SrcByte == 119
+RKind(st) == IF "rkind" \in DOMAIN st THEN st.rkind ELSE "script"
 
-SeqInit == [held |-> <<>>, alias |-> <<>>, pool |-> <<>>]
+SeqInit == [held |-> <<>>, alias |-> <<>>, salias |-> <<>>, pool |-> <<>>]
 
 (* new bytes written at the start of an array that holds old ones *)
 Overlay(old, new) == [i \in 1..Len(old) |-> IF i <= Len(new) THEN new[i] ELSE old[i]]
 
 SeqConsume(q, st) ==
-  LET held1 == IF PooledBuffer                              \* buf.Reset(); buf.ReadFrom(reader) rewrites the shared array
+  LET zero  == ZeroCopyBuffer /\ RKind(st) = "bytesbuffer"     \* b = reader.Next(reader.Len()): the source's own array
+      held1 == IF PooledBuffer /\ ~zero                         \* buf.Reset(); buf.ReadFrom(reader) rewrites the shared array
                THEN [j \in 1..Len(q.held) |-> IF q.alias[j] THEN Overlay(q.held[j], st.content) ELSE q.held[j]]
                ELSE q.held
-  IN [held  |-> Append(held1, st.content),
-      alias |-> Append(q.alias, PooledBuffer /\ st.dst \in ByteKindDst),
-      pool  |-> IF PooledBuffer THEN st.content ELSE q.pool]
+  IN [held   |-> Append(held1, st.content),
+      alias  |-> Append(q.alias, PooledBuffer /\ ~zero /\ st.dst \in ByteKindDst),
+      salias |-> Append(q.salias, zero /\ st.dst \in ByteKindDst),
+      pool   |-> IF PooledBuffer /\ ~zero THEN st.content ELSE q.pool]
 
 SeqMutate(q, st) ==
   LET t == st.target
       poke(x) == IF x = <<>> THEN x ELSE [x EXCEPT ![1] = MutByte]
-  IN [held  |-> Append([j \in 1..Len(q.held) |-> IF j = t \/ (q.alias[t] /\ q.alias[j]) THEN poke(q.held[j]) ELSE q.held[j]], <<>>),
-      alias |-> Append(q.alias, FALSE),
-      pool  |-> IF q.alias[t] THEN poke(q.pool) ELSE q.pool]
+  IN [held   |-> Append([j \in 1..Len(q.held) |-> IF j = t \/ (q.alias[t] /\ q.alias[j]) THEN poke(q.held[j]) ELSE q.held[j]], <<>>),
+      alias  |-> Append(q.alias, FALSE),
+      salias |-> Append(q.salias, FALSE),
+      pool   |-> IF q.alias[t] THEN poke(q.pool) ELSE q.pool]
 
-SeqStep(q, st) == IF st.op = "consume" THEN SeqConsume(q, st) ELSE SeqMutate(q, st)
+SeqSrcMutate(q, st) ==
+  LET t == st.target
+  IN [held   |-> Append([j \in 1..Len(q.held) |-> IF j = t /\ q.salias[t] THEN [i \in 1..Len(q.held[j]) |-> SrcByte] ELSE q.held[j]], <<>>),
+      alias  |-> Append(q.alias, FALSE),
+      salias |-> Append(q.salias, FALSE),
+      pool   |-> q.pool]
+
+SeqStep(q, st) ==
+  CASE st.op = "consume"   -> SeqConsume(q, st)
+    [] st.op = "mutate"    -> SeqMutate(q, st)
+    [] st.op = "srcmutate" -> SeqSrcMutate(q, st)
 
 RECURSIVE SeqRun(_, _)
 SeqRun(h, i) == IF i = 0 THEN SeqInit ELSE SeqStep(SeqRun(h, i - 1), h[i])
 
 (* the property: after i steps every destination holds exactly the bytes   *)
-(* it was given (with the caller's own change applied to that one value)   *)
+(* it was given (with the caller's own change applied to that one value);  *)
+(* what the caller does to the source afterwards changes nothing           *)
 RECURSIVE ExpectedHeld(_, _)
 ExpectedHeld(h, i) ==
   IF i = 0 THEN <<>>
   ELSE LET e == ExpectedHeld(h, i - 1) IN
-       IF h[i].op = "consume" THEN Append(e, h[i].content)
-       ELSE LET t == h[i].target IN
-            Append([j \in 1..Len(e) |-> IF j = t /\ e[j] # <<>> THEN [e[j] EXCEPT ![1] = MutByte] ELSE e[j]], <<>>)
+       CASE h[i].op = "consume" -> Append(e, h[i].content)
+         [] h[i].op = "mutate"  ->
+              LET t == h[i].target IN
+              Append([j \in 1..Len(e) |-> IF j = t /\ e[j] # <<>> THEN [e[j] EXCEPT ![1] = MutByte] ELSE e[j]], <<>>)
+         [] OTHER -> Append(e, <<>>)
 
 SeqWellFormed(h) ==
   \A i \in 1..Len(h) :
-     IF h[i].op = "consume" THEN h[i].dst \in SeqDst
-     ELSE h[i].target \in 1..(i - 1) /\ h[h[i].target].op = "consume" /\ h[h[i].target].dst \in ByteKindDst
+     CASE h[i].op = "consume" -> h[i].dst \in SeqDst /\ RKind(h[i]) \in SeqReaderKinds
+       [] h[i].op = "mutate" -> h[i].target \in 1..(i - 1) /\ h[h[i].target].op = "consume" /\ h[h[i].target].dst \in ByteKindDst
+       [] h[i].op = "srcmutate" -> h[i].target \in 1..(i - 1) /\ h[h[i].target].op = "consume"
+       [] OTHER -> FALSE
 
 (* o = [i, err, held (blobs), panic]: observation after step i *)
 SeqAllowed(c, o) ==
@@ -344,6 +374,8 @@ SeqWhy(c, o) ==
 (*   [t, s, kids, keys]  t in null|bool|num|str|list|map|struct             *)
 (*                       |anystruct|namedmap|namedlist (typed JSON          *)
 (*                       destinations with interface{} positions)           *)
+(*                       |feed|voidroot (XML with elements named like HTML  *)
+(*                       void elements: link, meta, img, br, hr)            *)
 (*   s: bytes of the string / number token / <<0|1>> for bool               *)
 (*   kids: element / member values; keys: member names (map)                *)
 (* The model of Consume_c(Produce_c(v)) is v; a document cut before its     *)
